@@ -20,8 +20,45 @@ use std::time::Duration;
 // ---------------------------------------------------------------------------------------------
 // histories (deterministic)
 
+/// the same query on a record with the same tag names but one marker / non-marker flipped:
+/// an answer memoised per key set (or per anything coarser than the record) shows up as history dependence
+fn twin(q: &Query) -> Option<Query> {
+    let flip = |r: &RDict| -> Option<RDict> {
+        let mut t = r.clone();
+        let k = t.iter().find(|(_, v)| matches!(v, RVal::Marker)).map(|(k, _)| k.clone());
+        match k {
+            Some(k) => {
+                t.insert(k, RVal::Str("x".into()));
+                Some(t)
+            }
+            None => {
+                let k = t.keys().next().cloned()?;
+                t.insert(k, RVal::Marker);
+                Some(t)
+            }
+        }
+    };
+    match q {
+        Query::Reflect(r) => flip(r).map(Query::Reflect),
+        Query::ReflectFits(r, a) => flip(r).map(|t| Query::ReflectFits(t, a.clone())),
+        Query::FilterIsA(r, a) => flip(r).map(|t| Query::FilterIsA(t, a.clone())),
+        _ => None,
+    }
+}
+
 fn check_history(c: &NsCase, rec: &mut Rec) -> Verdict {
-    let queries = c.resolved();
+    let mut queries = c.resolved();
+    // records carrying all parts of a conjunct as markers, and their twins
+    for d in c.tax.defs.iter().filter(|d| d.name.contains('-')).take(3) {
+        let r: RDict = d.name.split('-').map(|p| (p.to_string(), RVal::Marker)).collect();
+        queries.push(Query::Reflect(r.clone()));
+        queries.push(Query::ReflectFits(r, d.name.clone()));
+    }
+    let twins: Vec<Query> = queries.iter().filter_map(twin).collect();
+    if !twins.is_empty() {
+        rec.class("history:with-marker-flipped-twin-records");
+    }
+    queries.extend(twins);
     if queries.len() >= 3 {
         rec.nontrivial(key_of(&format!("{:?}", c.to_json())));
     }
